@@ -43,6 +43,8 @@ type FuncContract struct {
 	Results  []string
 	Requires []*Clause
 	Ensures  []*Clause
+	Captured []*Clause // behaviour contracts: ASSUMED facts about captured variables (not checked at call sites)
+	Checks   []*Clause // like ensures, but verified only (not exported to callers); may mention locals
 	Assigns  []*Clause
 	HasAssigns bool
 	Effects    []string
@@ -56,6 +58,8 @@ type FuncContract struct {
 	Splits     []*Clause
 	Reveal     map[string]bool
 	Uses       []*Clause
+	Behaves    map[string]string // parameter / result name -> behaviour contract
+	Behaviour  bool
 	Trusted    bool
 	Lib        bool
 	Inline     bool // closure bodies that are expanded at their call sites
@@ -123,7 +127,7 @@ type GlobalFact struct {
 
 var clauseKeywords = map[string]bool{"func": true, "spec": true, "axiom": true, "requires": true, "ensures": true,
 	"assigns": true, "effects": true, "nilable": true, "loop": true, "pure": true, "trusted": true, "iface": true,
-	"import": true, "inline": true, "global": true, "props": true, "split": true, "reveal": true, "use": true, "typeinv": true}
+	"import": true, "inline": true, "global": true, "props": true, "split": true, "reveal": true, "use": true, "typeinv": true, "behaves": true, "behaviour": true, "check": true, "captured": true}
 
 func firstWord(s string) string {
 	s = strings.TrimSpace(s)
@@ -205,6 +209,28 @@ func (P *Program) parseClauses(lines []cline, sc *Scope, pkgPath string, lib boo
 				return errf(l, "import %q: package not loaded", path)
 			}
 			sc.Aliases[fs[0]] = tp
+		case "behaves":
+			fs := strings.Fields(rest)
+			if len(fs) != 2 || cur == nil {
+				return errf(l, "behaves <name> <behaviour> expected")
+			}
+			if cur.Behaves == nil {
+				cur.Behaves = map[string]string{}
+			}
+			cur.Behaves[fs[0]] = fs[1]
+		case "behaviour":
+			fc, err := parseFuncHeader(rest, "", &Scope{Aliases: map[string]*types.Package{}}, P)
+			if err != nil {
+				return errf(l, "%v", err)
+			}
+			fc.Key = "behaviour:" + fc.Key
+			fc.Behaviour = true
+			fc.Scope, fc.File, fc.Line, fc.Lib = sc, l.file, l.line, lib
+			fc.Nilable = map[string]bool{}
+			fc.LoopInv = map[int][]*Clause{}
+			fc.LoopDec = map[int]*Clause{}
+			P.Contracts[fc.Key] = fc
+			cur = fc
 		case "func":
 			fc, err := parseFuncHeader(rest, pkgPath, sc, P)
 			if err != nil {
@@ -219,7 +245,7 @@ func (P *Program) parseClauses(lines []cline, sc *Scope, pkgPath string, lib boo
 			}
 			P.Contracts[fc.Key] = fc
 			cur = fc
-		case "requires", "ensures":
+		case "requires", "ensures", "check", "captured":
 			if cur == nil {
 				return errf(l, "%s outside func", w)
 			}
@@ -237,6 +263,10 @@ func (P *Program) parseClauses(lines []cline, sc *Scope, pkgPath string, lib boo
 			c := &Clause{Kind: w, Text: rest, Expr: e, Tags: tags, File: l.file, Line: l.line}
 			if w == "requires" {
 				cur.Requires = append(cur.Requires, c)
+			} else if w == "check" {
+				cur.Checks = append(cur.Checks, c)
+			} else if w == "captured" {
+				cur.Captured = append(cur.Captured, c)
 			} else {
 				cur.Ensures = append(cur.Ensures, c)
 			}
